@@ -250,7 +250,7 @@ static int record(int argc, char **argv)
     const int K = thorough ? 12 : 2;                  // interior pairs per branch case
     const long poolBudget = thorough ? 40000000 : 3000000;
     const int fanPerNode = thorough ? 6 : 1;          // boundary points per decision node
-    const long randomPairs = thorough ? 40000 : 1500;
+    const long randomPairs = thorough ? 30000 : 1500;
     Gen &g = cx.gen;
     int rr = 0;  // radius round-robin
     json summary;
